@@ -3,6 +3,7 @@
 package c10
 
 import (
+	"fmt"
 	"strings"
 	"testing"
 
@@ -50,7 +51,23 @@ func equalPins(t *rapid.T) []sim.Pin {
 
 func genServer(t *rapid.T) Case {
 	var sc sim.Scenario
-	switch rapid.IntRange(0, 3).Draw(t, "family") {
+	switch rapid.IntRange(0, 4).Draw(t, "family") {
+	case 4:
+		// the peer's last record arrives together with the end of the stream while
+		// replies to earlier calls are on their way out
+		sc.Cfg.Concurrency = 4
+		sc.Cfg.Salt = rapid.Uint64().Draw(t, "salt")
+		sc.Cfg.Chan = rapid.SampledFrom([]string{"fragile", "fragile", "direct", "pipe"}).Draw(t, "chan")
+		n := rapid.IntRange(1, 4).Draw(t, "calls")
+		sc.Cfg.Faults = []sim.Fault{{Op: "recv", At: n + 1, Kind: "data+eof"}}
+		for k := 1; k <= n; k++ {
+			sc.Steps = append(sc.Steps, sim.Step{Op: "send", Rec: engine.Bytes(fmt.Sprintf(`{"jsonrpc":"2.0","id":%d,"method":"gate","params":{"k":%d}}`, k, k))})
+		}
+		for k := 1; k <= n; k++ {
+			sc.Steps = append(sc.Steps, sim.Step{Op: "release", K: k, Out: "ok", Burst: true})
+		}
+		last := rapid.SampledFrom([]string{`{"jsonrpc":"2.0","method":"ret","params":{"k":9}}`, `{"jsonrpc":"2.0","id":9,"method":"ret","params":{"k":9}}`, `[]`}).Draw(t, "last")
+		sc.Steps = append(sc.Steps, sim.Step{Op: "send", Rec: engine.Bytes(last)})
 	case 0:
 		sc = gen.ServerScenario(t, profiles[0])
 	case 1:
@@ -61,7 +78,9 @@ func genServer(t *rapid.T) Case {
 		sc = gen.PushScenario(t)
 	}
 	sc.Cfg.Yield = rapid.IntRange(1, 4).Draw(t, "yield")
-	if rapid.IntRange(0, 2).Draw(t, "equal") != 0 {
+	if len(sc.Cfg.Faults) == 1 && sc.Cfg.Faults[0].Kind == "data+eof" && len(sc.Cfg.Pins) == 0 && rapid.Bool().Draw(t, "nohooks") {
+		sc.Cfg.NoHooks = true // nothing holds anybody back: the reader and the repliers meet at the channel
+	} else if rapid.IntRange(0, 2).Draw(t, "equal") != 0 {
 		sc.Cfg.Pins = equalPins(t)
 		sc.Cfg.NoHooks = false
 	}
